@@ -301,6 +301,7 @@ def c09(res, st, std_coq):
     for _ in range(1000 if q else 20000):
         cases.append((rnd.choice(entries), gens.random_bytes(rnd, rnd.randrange(0, 20))))
     cases += gens.systematic_cases(valid_only=False)
+    cases += gens.injection_cases(rnd, q)
     cases += [(e, s) for s in gens.regression("C09") for e in ("ParseStatement", "ParseExpr", "ParseDDL")]
     # many recovered failures in ONE input: every Bad node needs its error, however many there are
     for n in ((3, 101, 150) if q else (3, 101, 150, 1000)):
@@ -310,7 +311,9 @@ def c09(res, st, std_coq):
     report_oracle(res, "C09", cases, "error contract violated")
     res.add_cases(len(cases), len(set(cases)), [gens.case_lines(cases[:1]).strip()[:200], gens.case_lines(cases[-1:]).strip()[:200]])
     res.cov["rule"] = ("theorems on the trace model + syntactic obligations on the regenerated summary + escape theorem; implementation: corpus, "
-                       "mutations, soups, lists, generated sentences, sentences with one token deleted/inserted/replaced/truncated, random bytes; "
+                       "mutations, soups, lists, generated sentences, sentences with one token deleted/inserted/replaced/truncated, random bytes, systematic "
+                       "error injection (every word of 29 base sentences replaced by a construct with an error inside, deleted, and pairs of a "
+                       "parse-level error followed by a token that does not lex); "
                        "oracle = the property (nil error iff whole input consumed and no Bad node; MultiError with >= #BadNode elements; each element "
                        "has a message and 0 <= Pos <= End <= len); distinct = distinct (entry, input)")
     res.assumptions += ["the trace model abstracts the parser to its events on the error list; that only disciplined traces are possible rests on the "
@@ -376,6 +379,7 @@ def error_cases(rnd, q):
         for tmpl in (b"CAST(1 AS ARRAY<ARRAY<%s>>)", b"CAST(1 AS STRUCT<x ARRAY<%s>>)", b"CAST(1 AS ARRAY<STRUCT<%s>>)", b"ARRAY<STRUCT<a ARRAY<%s>>>[]", b"CAST(1 AS ARRAY<%s>)"):
             out.append(("ParseExpr", tmpl % inner))
             out.append(("ParseStatement", b"SELECT " + (tmpl % inner)))
+    out += gens.injection_cases(rnd, q)
     return out
 
 
@@ -418,6 +422,7 @@ def sampled(res, st, std_coq, extra_vo=()):
         ins = frag_inputs(rnd, q)
         frag_correspondence(res, ins, "expression fragment")
         res.add_cases(len(ins), len(set(ins)), [])
+        type_correspondence(res, rnd, q)
     return cases
 
 
@@ -519,6 +524,45 @@ def frag_correspondence(res, inputs, label):
                    not bad, "\n".join("%r\n go:    %s\n model: %s" % b for b in bad[:3]))
     res.extra.setdefault("fragment_correspondence", []).append(dict(st, label=label, inputs=len(inputs), disagreements=len(bad)))
     return st, bad
+
+
+def type_correspondence(res, rnd, q):
+    """extracted model of the whole type grammar (Parse/TypeModel.v) on the real lexer's tokens vs ParseType: same verdict, same
+    tree with every position, same position of the first error"""
+    inputs = gens.type_cases(rnd, q)
+    inp = "\n".join(hexs(x) for x in inputs) + "\n"
+    toks = vlib.run_lines(vlib.HARNESS, ["expr-toks"], inp)
+    go = vlib.run_lines(vlib.HARNESS, ["type-go"], inp)
+    md = vlib.run_lines(vlib.DRIVER, ["type-model"], "\n".join(toks) + "\n")
+    st = {"ok": 0, "err": 0, "lexerr": 0, "fuel": 0}
+    bad = []
+    for x, g_, m in zip(inputs, go, md):
+        gm = g_.split(" => ", 1)[1]
+        mm = m.split(" => ", 1)[1]
+        if mm == "LEXERR":
+            st["lexerr"] += 1
+            continue
+        if mm in ("FUEL", "UNSUP") or gm.startswith("PANIC"):
+            st["fuel"] += 1
+            bad.append((x, gm[:200], mm[:200]))
+            continue
+        nerr, first, dump = gm.split(" ", 2)
+        if mm.startswith("ERR"):
+            st["err"] += 1
+            if nerr == "0" or first != mm.split()[1]:
+                bad.append((x, gm[:300], mm))
+            continue
+        st["ok"] += 1
+        if nerr != "0" or dump != mm.split(" ", 1)[1]:
+            bad.append((x, gm[:400], mm[:400]))
+    for (x, g_, m) in bad[:3]:
+        res.violation("ParseType and the model of the type grammar disagree (verdict, tree with positions, or position of the first error)",
+                      {"kind": "type-correspondence", "entry": "ParseType", "input_hex": hexs(x), "go": g_, "model": m})
+    res.obligation("correspondence: ParseType == extracted model of the type grammar on %d inputs (%d accepted, %d rejected with the same first error position, %d not lexing)"
+                   % (len(inputs), st["ok"], st["err"], st["lexerr"]), not bad and st["ok"] > 0 and st["err"] > 0,
+                   "\n".join("%r\n go:    %s\n model: %s" % b for b in bad[:3]))
+    res.extra["type_correspondence"] = dict(st, inputs=len(inputs), disagreements=len(bad))
+    res.add_cases(len(inputs), st["ok"] + st["err"], [])
 
 
 C10_TARGETED = [b"CAST(1 AS ARRAY<STRUCT<x y>>)", b"CAST(1 AS ARRAY<STRUCT<a INT64, b c d>>)", b"CAST(1 AS ARRAY<ARRAY<x y>>) + 1", b"CAST(1 AS STRUCT<x y>>)",
